@@ -23,7 +23,7 @@ if [ $applies != no ] && [ -n "$dest" ] && [ -d "$wt/$pkgdir" ]; then
   cp $sd/demo_test.go $wt/$dest
   (cd $wt && go test -vet=off -count=1 -run 'Demo|demo|D[0-9]' ./$pkgdir/ >/tmp/sv/$name.with.log 2>&1) && res_demo_with=PASS || res_demo_with=fail
   # revert the production change, keep the demo
-  (cd $wt && git stash -q --keep-index 2>/dev/null; git checkout -q -- . 2>/dev/null; git reset -q --hard HEAD; cp $sd/demo_test.go $wt/$dest)
+  (cd $wt && git checkout -q -- . 2>/dev/null; git reset -q --hard HEAD; cp $sd/demo_test.go $wt/$dest)
   (cd $wt && go test -vet=off -count=1 -run 'Demo|demo|D[0-9]' ./$pkgdir/ >/tmp/sv/$name.without.log 2>&1) && res_demo_without=pass || res_demo_without=FAIL
 fi
 echo "{\"seed\":\"$name\",\"applies\":\"$applies\",\"dest\":\"$dest\",\"build\":\"$res_build\",\"existing_tests\":\"$res_exist\",\"demo_with_change\":\"$res_demo_with\",\"demo_without_change\":\"$res_demo_without\"}"
